@@ -355,6 +355,7 @@ func checkC06(w *World, r *Report) {
 	intInverseRule(w, r, "C06.int")
 	readerLimitRule(w, r, "C06.no-limit")
 	atomSiteRule(w, r, "C06.atom-site")
+	keyContentRule(w, r, "C06.key-content")
 	// "yields a value equal to the original": the equality the round trip is judged by
 	r.include("C06.equal-", "C14.", "the value read back must be equal to the original under =, so = must be structural equality on data", checkC14, func(rule string) bool {
 		switch rule {
@@ -784,6 +785,7 @@ func checkC16(w *World, r *Report) {
 	}
 	replAccumulateRule(w, r, multi, "C16.repl-reset")
 	leafReaderRule(w, r, "C16.one-token")
+	peekNextRule(w, r, "C16.peek-next")
 	// what a text is classified as depends on the text alone: the reader keeps nothing between (or across) reads
 	r.rule("C16.read-stateless", "reading assigns no package-level variable (no buffer, cache or counter carried from one read to the next or shared by two reads in progress): whether a text is complete, incomplete or malformed is decided from that text alone (shared with C17.read-stateless)")
 	noGlobalWritesRule(w, r, "C16.read-stateless", "the reader", append([]*ssa.Function{w.Fn("", "READ"), w.Fn("", "READWithPreamble")}, w.pkgFuncs("reader")...))
@@ -1129,6 +1131,16 @@ func checkC15(w *World, r *Report) {
 				// dominated by `tok.Value[0] == '$'`
 				for _, d := range rf.Blocks {
 					if iff := blockIf(d); iff != nil {
+						// ... or by strings.HasPrefix(tok.Value, "$")
+						if hp, ok := iff.Cond.(*ssa.Call); ok && hp.Call.StaticCallee() != nil && hp.Call.StaticCallee().String() == "strings.HasPrefix" && edgeDominates(d, 0, c.Block()) {
+							if k, ok := hp.Call.Args[1].(*ssa.Const); ok && k.Value != nil && k.Value.Kind() == constant.String && constant.StringVal(k.Value) == "$" {
+								if ld, ok := hp.Call.Args[0].(*ssa.UnOp); ok && ld.Op == token.MUL {
+									if fa, ok := ld.X.(*ssa.FieldAddr); ok && isTokenStruct(fa.X.Type()) && fieldName(fa.X.Type(), fa.Field) == "Value" {
+										okGuard = true
+									}
+								}
+							}
+						}
 						if bo, ok := iff.Cond.(*ssa.BinOp); ok && bo.Op == token.EQL {
 							if k, ok := bo.Y.(*ssa.Const); ok && k.Value != nil && k.Value.Kind() == constant.Int && k.Int64() == '$' && edgeDominates(d, 0, c.Block()) {
 								if strings.Contains(describeVal(e, bo.X, 0), "Value[0]") {
@@ -1239,6 +1251,10 @@ func checkC15(w *World, r *Report) {
 	// the pattern, evaluated on lines of the writer's shape
 	pat := ""
 	textIntactRule(w, r, "C15.text-intact")
+	// keyword values (and keyword keys of nested maps) travel through the preamble as printed text: the
+	// encoding of keywords must be injective for them to come back as they were
+	keywordInjectiveRule(w, r, "C15.keyword")
+	keyContentRule(w, r, "C15.key-content")
 	readerLimitRule(w, r, "C15.no-limit")
 	printerOneLineRule(w, r, "C15.one-line")
 	printerRules(w, r, "C15.one-escaper")
